@@ -22,6 +22,10 @@ DESIGNED_NOT_REGISTERED = [
      'unknown at 40 s. Replaced by a STRONGER chain: the energy-balance identity with vertices, moduli, density, dt and state all symbolic '
      '(0-12 free dofs, discharged in 0.1-7 s) + a definition-dropped corollary; concrete triangles/materials are kept as reachability '
      'witnesses of the hypotheses (solver model replayed on the real code).'),
+    ('O5 energy identity in axisymmetric mode with fully symbolic vertices',
+     'unknown at 90 s (z3 core and nlsat), with the built-in division and with the inverse-variable encoding of u_r/r; registered instead: '
+     'concrete triangle shapes at a symbolic radial position R > 0 with symbolic moduli, density, dt and state (0.5-2 s); O2/O4 in '
+     'axisymmetric mode do hold with fully symbolic vertices'),
     ('uniqueness of the stationary point of the algorithmic energy (strict convexity) for symbolic geometry or moduli',
      'not in the design; probed: g(d,0)=0 => d=0 is unsat in 15 s only with concrete triangle AND moduli (z3 core), unknown at 40 s otherwise; '
      'O4 proves KE positive definite, SE >= 0 is the material property C08'),
@@ -460,6 +464,35 @@ def _step_args(dm, rng=None, S=None):
     return [_rand_tri(rng) if S is None else S.rand_tri(rng)] + _params(rng)[:3] + [rng.normal(size=nu_) for _ in range(4)] + [rng.normal(size=nb), rng.uniform(0.05, 1.0)]
 
 
+def _inv_div_hook(ctx, eqn, iv):
+    """x / d with a symbolic denominator d  ->  x * inv_d, inv_d a fresh real per distinct denominator term with the side condition
+    inv_d * d = 1 (d is recorded as a denominator, i.e. assumed nonzero as for the built-in division). Equivalent to the built-in
+    encoding under d != 0; it keeps the hoop strain u_r/r polynomial, so that energy identities quadratic in u_r/r normalise
+    (built-in division: unknown at 90 s for the axisymmetric energy identity)."""
+    import z3
+    from .. import jx
+
+    def d(a, b):
+        if not sym.isz(b):
+            return jx._div(ctx, eqn.params, [jx.lift(a), jx.lift(b)])[()]
+        key = ('inv', b.get_id())
+        if key not in ctx.cache:
+            v = ctx.fresh('inv')
+            ctx.cache[key] = v
+            ctx.add_side(v * b == 1)
+        ctx.denoms.append((ctx.guard(), b))
+        return jx.s_mul(a, ctx.cache[key])
+    return jx.ew(d, *iv)
+
+
+def _ctx_for(S):
+    from .. import jx
+    ctx = jx.Ctx()
+    if S.axi:
+        ctx.hooks['div'] = _inv_div_hook
+    return ctx
+
+
 def _work(i, o):
     """dt/4 * (V + V') . (r0 + r1): the work of the two free-dof residuals over the step"""
     r0, r1, r1b, E0, E1, Vn = o
@@ -468,17 +501,48 @@ def _work(i, o):
 
 def _o5_identity(h, S, bcs, cap=90, tag=''):
     dm = _dofs(S, bcs)
-    c = Case(h, _step_fn(S, dm), _step_args(dm, S=S), sampler=lambda rng: _step_args(dm, rng, S=S), label='step%s[%s]' % (tag, bcs), validate=2 if not tag else 1)
+    c = Case(h, _step_fn(S, dm), _step_args(dm, S=S), sampler=lambda rng: _step_args(dm, rng, S=S), ctx=_ctx_for(S), label='step%s[%s]' % (tag, bcs), validate=2 if not tag else 1)
 
     def spec(i, o):
         r0, r1, r1b, E0, E1, Vn = o
-        scale = v_add(1.0, v_add(v_abs(s0(E0)), v_abs(s0(E1))))
-        return _box(i, S), [Eq(v_sub(s0(E1), s0(E0)), _work(i, o), name='energy_change_is_work_of_free_dof_residuals', scale=scale)]
+        # constant scale: a symbolic scale makes the margin search for a robust counter-model much harder
+        return _box(i, S), [Eq(v_sub(s0(E1), s0(E0)), _work(i, o), name='energy_change_is_work_of_free_dof_residuals')]
     c.prove('identity%s[%s]' % (tag, bcs), spec, cap=cap, order=('core', 'nlsat'))
     if BCSETS[bcs] and not tag:
         # with no constrained dof this is O2 itself (re-parametrised through the predictor: 17 s instead of 0.5 s), not repeated here
         c.prove('balance[%s]' % bcs, lambda i, o: (_box(i), [Eq(o[1], o[2], name='objective_gradient_is_free_dof_balance_at_new_time')]),
                 cap=cap, order=('nlsat', 'core'))
+    return dm
+
+
+def _o5_identity_axi(h, S, tri, bcs, cap=60):
+    """axisymmetric mode: concrete triangle SHAPE at a SYMBOLIC radial position R > 0 (vertex radii = R + offsets >= R), moduli,
+    density, dt and state symbolic (fully symbolic vertices: unknown at 90 s, see DESIGNED_NOT_REGISTERED)"""
+    dm = _dofs(S, bcs)
+    f0 = _step_fn(S, dm)
+    Xc = onp.asarray(TRIANGLES[tri])
+    Xc = Xc - onp.array([Xc[:, 0].min(), 0.0])
+
+    def f(R, E, nu, rho, Uu, Vu, Au, Un, Ub, dt):
+        return f0(jnp.asarray(Xc) + R * jnp.array([1.0, 0.0]), E, nu, rho, Uu, Vu, Au, Un, Ub, dt)
+
+    def args(rng=None):
+        a = _step_args(dm, rng, S=S)
+        if rng is None:
+            a.pop('X')
+            return dict(R=1.0, **a)
+        return [rng.uniform(0.2, 3.0)] + a[1:]
+    label = '%s/%s' % (tri, bcs)
+    c = Case(h, f, args(), sampler=args, ctx=_ctx_for(S), label='step_axi[%s]' % label, validate=2)
+
+    def spec(i, o):
+        r0, r1, r1b, E0, E1, Vn = o
+        # constant scale: a symbolic scale makes the margin search for a robust counter-model much harder (the replay tolerance is
+        # relative to the two sides anyway)
+        return _box(i, S) + [v_lt(0.0, s0(i['R']))], [
+            Eq(v_sub(s0(E1), s0(E0)), _work(i, o), name='energy_change_is_work_of_free_dof_residuals'),
+            Eq(r1, r1b, name='objective_gradient_is_free_dof_balance_at_new_time')]
+    c.prove('identity_axi[%s]' % label, spec, cap=cap, order=('core', 'nlsat'))
     return dm
 
 
@@ -551,7 +615,7 @@ def o5(h):
     h.encoded(FunctionSpace.DofManager.create_field)
     sets = ['pin0_roller1y', 'free', 'all_y_fixed'] if not h.thorough() else list(BCSETS)
     h.bounds('one P1 triangle with SYMBOLIC vertices, symbolic E, nu, rho, dt (box: ' + BOX + '), free-dof state '
-             'Uu, Vu, Au, new displacement Un, time-independent essential values Ub: all reals; essential-bc sets: %s (0 to 6 free dofs), 3-point rule; also P1 in AXISYMMETRIC mode (3-point rule, vertex radii > 0), P1 with the 1-point rule and one straight-sided P2 triangle with the 3-point rule (9 free dofs; thorough: 12); '
+             'Uu, Vu, Au, new displacement Un, time-independent essential values Ub: all reals; essential-bc sets: %s (0 to 6 free dofs), 3-point rule; also P1 in AXISYMMETRIC mode (3-point rule; concrete triangle shapes at a symbolic radial position R > 0, moduli/density/dt/state symbolic), P1 with the 1-point rule and one straight-sided P2 triangle with the 3-point rule (9 free dofs; thorough: 12); '
              'reachability witnesses of the hypotheses on concrete triangles %s x materials (E,nu,rho) %s'
              % (sets, sorted(TRIANGLES), sorted(MATERIALS.values())))
     h.outside('conservation over long histories follows by induction over this one-step identity (variable dt covered: dt is a free '
@@ -564,14 +628,18 @@ def o5(h):
         dm = _o5_identity(h, S, b)
         _o5_corollary(h, b, dm.get_unknown_size())
     # rules of degree < 2p (P1 / 1 point, P2 / 3 points = the repository's 2(p-1) choice): every energy must use the caller's rule
-    S1, S2, SA = Setup(qdeg=1), Setup(degree=2), Setup(mode='axisymmetric')
+    S1, S2 = Setup(qdeg=1), Setup(degree=2)
     for St, tag, bs in ((S1, '_1pt', ['pin0_roller1y'] + (['free'] if h.thorough() else [])),
-                        (S2, '_P2', ['pin0_roller1y'] + (['free'] if h.thorough() else [])),
-                        # axisymmetric mode (axisymmetric function space, vertex radii > 0): same kinematics in every energy
-                        (SA, '_axi', ['pin0_roller1y'] + (['all_y_fixed', 'free'] if h.thorough() else []))):
+                        (S2, '_P2', ['pin0_roller1y'] + (['free'] if h.thorough() else []))):
         for b in bs:
             dm = _o5_identity(h, St, b, tag=tag)
             _o5_corollary(h, tag[1:] + '/' + b, dm.get_unknown_size())
+    # axisymmetric mode (axisymmetric function space and kinematics): the same identity
+    SA = Setup(mode='axisymmetric')
+    axi = [('skew', 'pin0_roller1y')] if not h.thorough() else [(t, b) for t in TRIANGLES for b in ('pin0_roller1y', 'free', 'all_y_fixed')]
+    for t, b in axi:
+        dm = _o5_identity_axi(h, SA, t, b)
+        _o5_corollary(h, 'axi/%s/%s' % (t, b), dm.get_unknown_size())
     wit = [('ref', 'E10_nu0_rho1', 'pin0_roller1y'), ('skew', 'E1_nu0.25_rho2', 'pin0_roller1y'), ('obtuse', 'E3.5_nu0.375_rho0.5', 'all_y_fixed')]
     if h.thorough():
         wit = [(t, m, 'pin0_roller1y') for t in TRIANGLES for m in MATERIALS] + [('obtuse', 'E3.5_nu0.375_rho0.5', 'all_y_fixed'), ('skew', 'E1_nu0.25_rho2', 'pin0_pin1')]
